@@ -7,6 +7,7 @@ import (
 	"os"
 	"os/exec"
 	"path/filepath"
+	"regexp"
 	"sort"
 	"strconv"
 	"strings"
@@ -163,8 +164,8 @@ func (cr *checkRun) harnessFuncs(pkgKey string) []string {
 			continue
 		}
 		for _, line := range strings.Split(string(src), "\n") {
-			if strings.HasPrefix(line, "func Verif") && strings.Contains(line, "() {") {
-				name := line[5:strings.Index(line, "(")]
+			if m := harnessDecl.FindStringSubmatch(line); m != nil {
+				name := m[1]
 				if !seen[name] {
 					seen[name] = true
 					fs = append(fs, name)
@@ -175,6 +176,9 @@ func (cr *checkRun) harnessFuncs(pkgKey string) []string {
 	sort.Strings(fs)
 	return fs
 }
+
+// harnessDecl matches `func VerifXxx() {` (no parameters, no results; gofmt may align the brace).
+var harnessDecl = regexp.MustCompile(`^func (Verif[A-Za-z0-9_]+)\(\)\s*\{`)
 
 type nativeResult struct {
 	out      string
@@ -452,7 +456,7 @@ func runCheck(pd *propDef, tier string, seed int, verifDir, only string, workers
 					want = append(want, o.Label+"="+strings.Join(o.Vals, ","))
 				}
 				if !nr.returned || strings.Join(want, "|") != strings.Join(nr.observes, "|") {
-					inconclusive = append(inconclusive, fmt.Sprintf("%s: witness replay disagrees with the engine (choices %s): engine %v native %v panic=%q", hd.Name, wo.Choices, want, nr.observes, nr.panicMsg))
+					inconclusive = append(inconclusive, fmt.Sprintf("%s: witness replay disagrees with the engine (choices %s): engine %v native %v panic=%q out=%q", hd.Name, wo.Choices, want, nr.observes, nr.panicMsg, tailStr(nr.out, 300)))
 				} else {
 					he.WitnessReplays++
 					totalWitness++
@@ -461,17 +465,22 @@ func runCheck(pd *propDef, tier string, seed int, verifDir, only string, workers
 		}
 		// --- violations
 		seen := map[string]bool{}
+		tries := map[string]int{}
+		pendingInconclusive := map[string]string{}
 		reported, attempts := 0, 0
 		for _, v := range rep.Violations {
 			key := v.Label + "|" + v.Site + "|" + firstLine(v.Msg)
 			if v.Label == "does-not-return" || v.Label == "deadlock" {
 				key = v.Label
 			}
-			if seen[key] {
+			// several paths may violate the same assertion; a member of the group whose model
+			// does not reproduce (e.g. because an abstracted codec happens to agree natively for
+			// that value) must not hide the others: try up to 4 members per group
+			if seen[key] || tries[key] >= 4 {
 				continue
 			}
-			seen[key] = true
-			if reported >= 3 || attempts >= 12 {
+			tries[key]++
+			if reported >= 3 || attempts >= 16 {
 				// enough to fail the check; the evidence lists the rest
 				continue
 			}
@@ -518,9 +527,11 @@ func runCheck(pd *propDef, tier string, seed int, verifDir, only string, workers
 				}
 				nr.out = "=== " + tags + " ===\n" + nr.out + "\n=== " + hd.DualTags + " ===\n" + nr2.out
 			} else if !reproduced(v, nr) {
-				inconclusive = append(inconclusive, fmt.Sprintf("%s: counterexample for %s (%s at %s; choices %s) did not reproduce natively (native: returned=%v panic=%q) - encoding or stub error", hd.Name, v.Label, firstLine(v.Msg), v.Site, v.Choices, nr.returned, nr.panicMsg))
+				pendingInconclusive[key] = fmt.Sprintf("%s: counterexample for %s (%s at %s; choices %s) did not reproduce natively (native: returned=%v panic=%q) - encoding or stub error", hd.Name, v.Label, firstLine(v.Msg), v.Site, v.Choices, nr.returned, nr.panicMsg)
 				continue
 			}
+			seen[key] = true
+			delete(pendingInconclusive, key)
 			if k := cr.matchKnown(pd.ID, hd.Name, v); k != nil {
 				if !knownHit[k.What] {
 					knownHit[k.What] = true
@@ -533,6 +544,9 @@ func runCheck(pd *propDef, tier string, seed int, verifDir, only string, workers
 			dir := cr.saveReplay(pd.ID, hd, tags, params, v, nr)
 			fmt.Printf("VIOLATION property=%s replay=%s\n", pd.ID, dir)
 			fmt.Printf("  harness=%s label=%s site=%s msg=%s choices=[%s]\n", hd.Name, v.Label, v.Site, firstLine(v.Msg), v.Choices)
+		}
+		for _, m := range pendingInconclusive {
+			inconclusive = append(inconclusive, m)
 		}
 		for _, s := range rep.Samples {
 			if len(samples) < 12 {
@@ -609,6 +623,13 @@ func runCheck(pd *propDef, tier string, seed int, verifDir, only string, workers
 }
 
 func labelKnown(cr *checkRun, prop, label string) bool { return false }
+
+func tailStr(s string, n int) string {
+	if len(s) > n {
+		return s[len(s)-n:]
+	}
+	return s
+}
 
 func oneLine(s string) string {
 	s = strings.ReplaceAll(s, "\n", " | ")
